@@ -26,8 +26,9 @@ def check_C07(ctx):
     ctx.level = "proof"
     ctx.coverage["level_claimed"] = {
         "text": "PARTIAL (concurrent part): proved: C07_order, C07_order_reachable (generic), C07_finished_hold_nothing, "
-                "C07_excl_calls_never_deadlock; refuted: C07_refuted_rename_rename; other deadlocks/panics are found by "
-                "exploration of the real code (bounded schedules), not excluded by proof"}
+                "C07_excl_calls_never_deadlock, C07_traces, C07_rename_free_never_deadlocks (MemFS machines, no Rename); "
+                "refuted: C07_refuted_rename_rename, C07_refuted_orefa_*; deadlocks/panics of programs with Rename and of "
+                "OrefaFS are found by exploration of the real code (bounded schedules), not excluded by proof"}
     ctx.proofs()
     concurrent_part(ctx)
     for part in SEQUENTIAL_PARTS:
